@@ -39,6 +39,7 @@ type PropSpec struct {
 	Extra       func(c *Checker)                                // additional, property specific obligations / analyses
 	Replay      func(c *Checker, o *Obl) map[string]interface{} // property-level replay for obligations without a recipe
 	MinObls     int
+	SafeFns     *regexp.Regexp  // if set: no-panic obligations are kept only for functions whose key matches
 	SweepPkgs   map[string]bool // every function of these packages is encoded (zero-annotation obligations of the property's classes)
 	SweepSkip   *regexp.Regexp  // source files left out of the sweep
 	TrustedBase []string
@@ -47,21 +48,23 @@ type PropSpec struct {
 }
 
 type Checker struct {
-	W         *World
-	Prop      *PropSpec
-	Tier      string
-	Seed      int
-	Timeout   int
-	Dir       string
-	Verif     string
-	Encs      []*enc
-	EncOf     map[*Obl]*enc
-	Obls      []*Obl
-	Bounded   []map[string]interface{}
-	Audits    []map[string]interface{}
-	Notes     []string
-	engineErr []string
-	mu        sync.Mutex
+	W       *World
+	Prop    *PropSpec
+	Tier    string
+	Seed    int
+	Timeout int
+	Dir     string
+	Verif   string
+	Encs    []*enc
+	EncOf   map[*Obl]*enc
+	Obls    []*Obl
+	Bounded []map[string]interface{}
+	// BoundedViol: failures of bounded stand-in checks (each becomes a VIOLATION with its own replay file)
+	BoundedViol []map[string]interface{}
+	Audits      []map[string]interface{}
+	Notes       []string
+	engineErr   []string
+	mu          sync.Mutex
 }
 
 var propSpecs = map[string]*PropSpec{}
@@ -102,7 +105,11 @@ func cmdCheck(args []string, repo, spec string, timeout int, verbose bool) int {
 		return 2
 	}
 	dir, _ := os.MkdirTemp("", "gvc."+id+".")
-	defer os.RemoveAll(dir)
+	if keepSMT {
+		fmt.Println("SMT files kept in", dir)
+	} else {
+		defer os.RemoveAll(dir)
+	}
 	if tier == "thorough" {
 		timeout *= 6
 	}
@@ -244,6 +251,9 @@ func (c *Checker) addFunc(f *ssa.Function, filter func(*Obl) bool) *enc {
 			continue
 		}
 		if filter == nil && c.Prop.Classes != nil && !c.Prop.Classes.MatchString(o.Class+":"+o.Label) && o.Class != "reach" && o.Class != "contract" && o.Class != "subset" {
+			continue
+		}
+		if c.Prop.SafeFns != nil && o.Class == "safe" && !c.Prop.SafeFns.MatchString(e.key) {
 			continue
 		}
 		o.Props[c.Prop.ID] = true
@@ -429,6 +439,25 @@ func (c *Checker) report(t0 time.Time, verbose bool) int {
 		fmt.Printf("FAILED-OBLIGATION %s at %s: solver=%s result=%s %s\n", o.ID, shortPos(c.W.Fset, o.Pos), o.Solver, o.Result, o.Note)
 		exit = 1
 	}
+	for _, bv := range c.BoundedViol {
+		name, _ := bv["obligation"].(string)
+		if kf := knownBy[name]; kf != nil {
+			knownHit = append(knownHit, map[string]string{"obligation": name, "what": kf.What, "result": "bounded check fails"})
+			continue
+		}
+		path := filepath.Join(c.Verif, "replays", id, sname(name)+".json")
+		bv["property"] = id
+		bv["class"] = "bounded"
+		b, _ := json.MarshalIndent(bv, "", " ")
+		os.WriteFile(path, b, 0644)
+		line := fmt.Sprintf("VIOLATION property=%s replay=%s", id, path)
+		if bv["confirmed"] != true {
+			line += " no-failing-input-found"
+		}
+		violations = append(violations, line)
+		fmt.Printf("FAILED-BOUNDED-CHECK %s: %v\n", name, bv["outcome"])
+		exit = 1
+	}
 	for _, k := range knownHit {
 		fmt.Printf("KNOWN-FINDING: property=%s %s — %s\n", id, k["obligation"], k["what"])
 	}
@@ -478,7 +507,7 @@ func (c *Checker) report(t0 time.Time, verbose bool) int {
 	cov := map[string]interface{}{
 		"obligations": total, "discharged": discharged,
 		"checker_cmd":  fmt.Sprintf("bin/gvc check %s %s  (VCs over go/ssa of %s, tag verif; solvers z3-new 5.1.0, z3 4.8.12, cvc5 1.0; per-obligation timeout %d ms)", id, c.Tier, c.W.Repo, c.Timeout),
-		"trusted_base": append([]string{"go/types + go/ssa (x/tools v0.29.0) as the semantics of the Go subset", "gvc SSA->SMT translation (this repository, /verif/gvc)", "SMT solvers: an unsat answer of one solver is believed"}, c.Prop.TrustedBase...),
+		"trusted_base": append([]string{"go/types + go/ssa (x/tools v0.29.0) as the semantics of the Go subset", "gvc SSA->SMT translation (this repository, /verif/gvc)", "SMT solvers: an unsat answer of one solver is believed", "postconditions, invariants and site assertions are partial-correctness statements about executions that get there: a run-time panic on the way is a failed safe:* obligation where the property includes that class (by_class says which) and is otherwise outside the statement; execution resumed by recover() is not modelled (C19 treats it structurally)"}, c.Prop.TrustedBase...),
 		"samples":      samples, "functions_under_contract": fns, "by_class": byClass, "by_solver": bySolver, "solver_ms_total": solverMs,
 		"slowest": slowest, "vacuity_probes": probes, "vacuity_probes_ok": probesOK, "known_findings": knownHit, "bounded": c.Bounded, "audits": c.Audits,
 		"abstractions": ns, "not_decided": c.Prop.NotDecided, "notes": c.Notes, "contract_files": c.W.CS.Files,
